@@ -34,4 +34,27 @@ let () =
   register "c04.dlba_enc" (function [vs] -> tok_of_bytes (Model.dlba_enc (blist vs)) | _ -> failwith "args");
   register "c04.dlba_dec" (function [b] -> opt out_blist (Model.dlba_dec (bytes_of_tok b)) | _ -> failwith "args");
   register "c04.dba_enc" (function [vs] -> tok_of_bytes (Model.dba_enc (blist vs)) | _ -> failwith "args");
-  register "c04.dba_dec" (function [b] -> opt out_blist (Model.dba_dec (bytes_of_tok b)) | _ -> failwith "args")
+  register "c04.dba_dec" (function [b] -> opt out_blist (Model.dba_dec (bytes_of_tok b)) | _ -> failwith "args");
+  (* models of the Go decoders: answer "GOK <values>", "GERR" or "GPANIC" *)
+  let gres f = function Model.GOk x -> "GOK " ^ f x | Model.GErr -> "GERR" | Model.GPanic -> "GPANIC" in
+  register "c04.go_rle_dec" (function [kind; w; b] ->
+      let bs = bytes_of_tok b in
+      (match kind with
+       | "levels" -> gres out_nlist (Model.go_decode_levels (k_of w) bs)
+       | "int32" -> gres out_nlist (Model.go_decode_int32_top (k_of w) bs)
+       | "dict" -> gres out_nlist (Model.go_decode_dict bs)
+       | "bool" -> gres tok_of_bytes (Model.go_decode_boolean bs)
+       | _ -> failwith "kind") | _ -> failwith "args");
+  (* "<cost of Go's walk> <cost of the specification decoder's walk>" *)
+  register "c04.go_rle_cost" (function [kind; w; b] ->
+      let bs = bytes_of_tok b in
+      let kd = match kind with "levels" -> 0 | "int32" -> 1 | "bool" -> 2 | _ -> failwith "kind" in
+      hex_of_n (Model.go_rle_cost (n_of_int kd) (k_of w) bs) ^ " " ^ hex_of_n (Model.spec_rle_cost (n_of_int kd) (k_of w) bs)
+    | _ -> failwith "args");
+  register "c04.go_delta_dec" (function [k; b] ->
+      gres (fun (xs, rest) -> out_zlist xs ^ " " ^ tok_of_bytes rest) (Model.go_dbp_dec (k_of k) (bytes_of_tok b)) | _ -> failwith "args");
+  register "c04.go_delta_cost" (function [sections; limit; b] ->
+      hex_of_n (Model.dbp_sections_cost (nat_of_int (int_of_string sections)) (n_of_int (int_of_string limit)) (bytes_of_tok b)) | _ -> failwith "args");
+  register "c04.go_dlba_dec" (function [b] ->
+      gres (fun (data, offs) -> tok_of_bytes data ^ " " ^ out_nlist offs) (Model.go_dlba_dec (bytes_of_tok b)) | _ -> failwith "args");
+  register "c04.go_dba_dec" (function [b] -> gres out_blist (Model.go_dba_dec (bytes_of_tok b)) | _ -> failwith "args")
